@@ -269,3 +269,41 @@ def table5(ctx) -> List[Ob]:
             else:
                 out.append(ok("TABLE-5", fb.qualname, key, where, "updated on every iteration"))
     return out
+
+
+@rule("TABLE-6", 2, "a block's successors are the recorded targets of its terminator when one is recorded, else the implicit fall-through to the next block - nothing else")
+def table6(ctx) -> List[Ob]:
+    out: List[Ob] = []
+    fi = ctx.prog.cls("FlowInfo")
+    bb = fi.find_method("build_basicblocks")
+    if bb is None:
+        raise AnalysisError("FlowInfo.build_basicblocks not found")
+    ctors = [c for c in A.walk_no_nested(bb.node) if isinstance(c, ast.Call) and (A.dotted(c.func) or "").split(".")[-1] == "PythonBytecodeBlock"]
+    if not ctors:
+        raise AnalysisError("no PythonBytecodeBlock(...) in build_basicblocks")
+    jt = kw(ctors[0], "_jump_targets")
+    if not isinstance(jt, ast.Name):
+        out.append(unresolved("TABLE-6", bb.qualname, "successor expression", ctx.where(bb, ctors[0]), "successors are not passed through a local"))
+        return out
+    from .ctrl import _guard_conditions
+
+    assigns = [s for s in A.walk_no_nested(bb.node) if isinstance(s, ast.Assign) and any(isinstance(t, ast.Name) and t.id == jt.id for t in s.targets)]
+    seen = set()
+    for s in assigns:
+        txt = A.unparse(s.value)
+        guards = _guard_conditions(bb.node, s)
+        key = "successors := " + A.alpha_key(s.value)
+        where = ctx.where(bb, s)
+        member = [(t, pol) for t, pol in guards if "jump_insts" in t]
+        if "jump_insts[" in txt and member and ((" not in " in member[0][0]) != member[0][1]) and len(guards) == 1:
+            seen.add("recorded")
+            out.append(ok("TABLE-6", bb.qualname, key, where, "recorded targets of the terminator, in order"))
+        elif txt.startswith("(names[") and member and ((" not in " in member[0][0]) == member[0][1]) and len(guards) == 1:
+            seen.add("implicit")
+            out.append(ok("TABLE-6", bb.qualname, key, where, "implicit fall-through to the next block when no jump is recorded"))
+        else:
+            out.append(bad("TABLE-6", bb.qualname, key, where, f"successors are set to {txt[:40]} under {[g[0] for g in guards]}: a block whose terminator is a recorded jump / return gets other successors than the recorded ones"))
+    for need in ("recorded", "implicit"):
+        if need not in seen:
+            out.append(bad("TABLE-6", bb.qualname, f"{need} case", ctx.where(bb), f"the {need} case of the successor computation is missing"))
+    return out
